@@ -182,22 +182,32 @@ def run_property(pid, tier, seed, update_lock=False, only=None, verbose=False):
     props = load_props()
     spec = props.PROPERTIES[pid]
     modnames = list(spec["modules"])
-    borrow = spec.get("borrow")  # contracts of another property's module that this property also depends on
-    if borrow:
-        modnames += [m for m in borrow["modules"] if m not in modnames]
+    borrow = spec.get("borrow")  # contracts of another property's modules that this property also depends on
     timeout_ms = 20000 if tier == "quick" else 120000
     extract.clear_cache()
     reg = build_registry(modnames)
     targets = [t for t, c in reg.contracts.items() if pid in c.properties and not c.call_only]
+    target_mods = {t: modnames for t in targets}
     if borrow:
-        targets += [t for t, c in reg.contracts.items() if t not in targets and not c.call_only and any(k in t for k in borrow["match"])]
+        # borrowed contracts are verified in a registry of their own modules (library models of different
+        # contract modules must not interfere)
+        bmods = list(borrow["modules"])
+        breg = build_registry(bmods)
+        for t, c in breg.contracts.items():
+            if t not in target_mods and not c.call_only and any(k in t for k in borrow["match"]):
+                targets.append(t)
+                target_mods[t] = bmods
+                reg.contracts.setdefault(t, c)
+        for n_, t_ in breg.trusted:
+            if (n_, t_) not in reg.trusted:
+                reg.trusted.append((n_, t_))
     if only:
         targets = [t for t in targets if only in t]
     if not targets:
         print(f"checker failure: no contracts registered for {pid}")
         return 3
     sample_paths = 2 if tier == "quick" else 40
-    jobs = [(modnames, t, timeout_ms, True, sample_paths, tier != "quick") for t in targets]
+    jobs = [(target_mods[t], t, timeout_ms, True, sample_paths, tier != "quick") for t in targets]
     nproc = min(16, len(jobs), os.cpu_count() or 4)
     ctx = mp.get_context("fork")
     with ctx.Pool(nproc) as pool:
@@ -247,7 +257,7 @@ def run_property(pid, tier, seed, update_lock=False, only=None, verbose=False):
                 if c.replay is None or o["model"] is None or tried >= 6:
                     continue
                 tried += 1
-                kind, text = replay(modnames, e["target"], o["model"], clause_of(name))
+                kind, text = replay(target_mods.get(e["target"], modnames), e["target"], o["model"], clause_of(name))
                 outputs.append(dict(model=o["model"], replay=kind, text=text, detail=o["detail"]))
                 if kind in ("violation", "timeout"):
                     confirmed = dict(model=o["model"], text=text if kind == "violation" else "NON-TERMINATION: " + text, detail=o["detail"])
@@ -304,7 +314,7 @@ def run_property(pid, tier, seed, update_lock=False, only=None, verbose=False):
     from concurrent.futures import ThreadPoolExecutor
 
     with ThreadPoolExecutor(max_workers=8) as tp:
-        results = list(tp.map(lambda r: replay_batch(modnames, r["target"], r["path_samples"]), todo))
+        results = list(tp.map(lambda r: replay_batch(target_mods.get(r["target"], modnames), r["target"], r["path_samples"]), todo))
     for r, res in zip(todo, results):
         xcheck["inputs"] += len(r["path_samples"])
         for inp, (kind, text) in zip(r["path_samples"], res):
@@ -319,7 +329,7 @@ def run_property(pid, tier, seed, update_lock=False, only=None, verbose=False):
         if c is None or c.replay is None:
             continue
         inputs = samples_db.get(r["target"]) or [{}]
-        res = replay_batch(modnames, r["target"], inputs[:6])
+        res = replay_batch(target_mods.get(r["target"], modnames), r["target"], inputs[:6])
         for inp, (kind, text) in zip(inputs, res):
             if kind == "violation":
                 name = f"{c.short}#replay-of-recorded-inputs"
